@@ -543,6 +543,8 @@ def rule_contig(ctx: Ctx) -> None:
                          (isinstance(v, ast.Call) and norm(v.func).split('.')[-1] in ('flatten', '_flatten_dense_tensors'))
             elif isinstance(a0, ast.Call) and isinstance(a0.func, ast.Attribute) and a0.func.attr == 'contiguous':
                 ok = True
+            elif isinstance(a0, ast.Call) and norm(a0.func).split('.')[-1] in ('flatten', '_flatten_dense_tensors'):
+                ok = True       # the flat buffer written in place of a local
             ctx.check(ok, 'DOM-CONTIG', f, f'{f.name}: {norm(c.func)} on a contiguous copy', f'{f.name} {norm(c.func)}',
                       f'{f.short}: {norm(c.func)} is given {why}; the collective sends raw storage, so a tensor that is not row-major '
                       '(e.g. the column-major eigenvectors returned by eigh) arrives transposed on the other ranks', c)
